@@ -30,3 +30,107 @@ package main
 //@   check [C13] result != nil ==> 0 <= y && y < len(out.Pix) && 0 <= x && x < roww(out) && !onEdge(out, edgePixels, y, x) && wordLE(raw, y * roww(out) + x) == 0
 //@   ensures [C13] result != nil ==> dyntype(result) == typecode("*github.com/TheCacophonyProject/lepton3.BadFrameErr")
 //@   ensures [C13] out.Status.TimeOn == 60000000000 && out.Status.LastFFCTime == 1000000000
+
+// ---------------------------------------------------------------------------
+// Glue (C04 C05 C10 C11 C12 C13 C14 C17). These functions are I/O-heavy; they are
+// checked in permissive mode: calls without a contract are havoc'ed (results
+// arbitrary, may modify what their pointer arguments reach - assumption A5) and
+// the contracts pin the call structure (which calls, in which order, with which
+// arguments) through the function's own call trace (ncalls/callarg/callseq).
+
+//@ func frameParser
+//@   ensures [C13,C11] brand == "flir" && (model == lepton3.Model || model == lepton3.Model35) ==> result == funcval("lepton3.ParseRawFrame")
+//@   ensures [C13,C11] brand == "flir" && model == "boson" ==> result == funcval("cmd/thermal-recorder.convertRawBosonFrame")
+//@   ensures [C13,C11] !(brand == "flir" && (model == lepton3.Model || model == lepton3.Model35 || model == "boson")) ==> result == nil
+
+//@ func checkDiskSpace
+//@   mode permissive
+//@   call Statfs#1 bind serr
+//@   check [C04] ncalls("Statfs") == 1 && callarg("Statfs", 1, 0) == dir
+//@   check [C04] serr != nil ==> !result0 && result1 != nil
+//@   check [C04] serr == nil ==> result1 == nil && result0 == (wrap64(fs.Bavail * wrap64(fs.Bsize)) / 1024 / 1024 >= mb)
+
+//@ func (cfr *CPTVFileRecorder) CheckCanRecord
+//@   mode permissive
+//@   requires cfr != nil
+//@   ensures [C04] ncalls("checkDiskSpace") == 1 && callarg("checkDiskSpace", 1, 0) == cfr.minDiskSpace && callarg("checkDiskSpace", 1, 1) == cfr.outputDir
+//@   ensures [C04] (result == nil) == (callres("checkDiskSpace", 1).1 == nil && callres("checkDiskSpace", 1).0)
+
+//@ func (fw *CPTVFileRecorder) WriteFrame
+//@   mode permissive
+//@   requires [C12] fw != nil && fw.writer != nil
+//@   ensures [C11,C12] ncalls("WriteFrame") == 1 && callarg("WriteFrame", 1, 1) == frame && result == callres("WriteFrame", 1)
+
+//@ func newRecordingTempName
+//@   mode permissive
+//@   ensures [C10] ncalls("Format") == 1 && callarg("Format", 1, 1) == "20060102.150405.000.cptv.temp" && result == callres("Format", 1)
+
+//@ func renameTempRecording
+//@   mode permissive
+//@   ensures [C10] ncalls("recordingFinalName") == 1 && callarg("recordingFinalName", 1, 0) == tempName
+//@   ensures [C10] ncalls("Rename") == 1 && callarg("Rename", 1, 0) == tempName && callarg("Rename", 1, 1) == callres("recordingFinalName", 1)
+//@   ensures [C10] callres("Rename", 1) != nil ==> result0 == "" && result1 == callres("Rename", 1)
+//@   ensures [C10] callres("Rename", 1) == nil ==> result0 == callres("recordingFinalName", 1) && result1 == nil
+
+//@ func recordingFinalName
+//@   mode permissive
+//@   ensures [C10] ncalls("ReplaceAllString") == 1 && callarg("ReplaceAllString", 1, 0) == reTempName && callarg("ReplaceAllString", 1, 1) == filename && callarg("ReplaceAllString", 1, 2) == "$1" && result == callres("ReplaceAllString", 1)
+
+//@ func (fw *CPTVFileRecorder) Stop
+//@   mode permissive
+//@   requires fw != nil
+//@   ensures [C10] old(fw.writer) != nil ==> ncalls("Close") == 1 && ncalls("Remove") == 1 && callseq("Close", 1) < callseq("Remove", 1) && callarg("Remove", 1, 0) == callres("Name", 1)
+//@   ensures [C10,C12] fw.writer == nil
+//@   ensures [C10] old(fw.writer) == nil ==> ncalls("Close") == 0 && ncalls("Remove") == 0
+
+//@ func (fw *CPTVFileRecorder) StopRecording
+//@   mode permissive
+//@   requires fw != nil
+//@   ensures [C10] old(fw.writer) != nil ==> ncalls("Close") == 1 && ncalls("renameTempRecording") == 1 && callseq("Close", 1) < callseq("renameTempRecording", 1)
+//@   ensures [C10] ncalls("renameTempRecording") == 1 && ncalls("Name") == 1 ==> callarg("renameTempRecording", 1, 0) == callres("Name", 1) && result == callres("renameTempRecording", 1).1
+//@   ensures [C10,C12] fw.writer == nil
+//@   ensures [C10] old(fw.writer) == nil ==> ncalls("Close") == 0 && ncalls("renameTempRecording") == 0 && result == nil
+
+//@ func (fw *CPTVFileRecorder) StartRecording
+//@   mode permissive
+//@   requires fw != nil
+//@   ensures [C10] ncalls("NewFileWriter") <= 1 && (ncalls("NewFileWriter") == 1 ==> ncalls("newRecordingTempName") == 1 && ncalls("Join") == 1 && len(callarg("Join", 1, 0)) == 2 && callarg("Join", 1, 0)[0] == old(fw.outputDir) && callarg("Join", 1, 0)[1] == callres("newRecordingTempName", 1) && callarg("NewFileWriter", 1, 0) == callres("Join", 1) && callarg("NewFileWriter", 1, 1) == old(fw.camera))
+//@   ensures [C10,C12] ncalls("NewFileWriter") == 0 ==> result != nil && fw.writer == old(fw.writer)
+//@   ensures [C10,C12] ncalls("NewFileWriter") == 1 ==> ((result == nil) == (callres("NewFileWriter", 1).1 == nil && ncalls("WriteHeader") == 1 && callres("WriteHeader", 1) == nil))
+//@   ensures [C10,C12] ncalls("NewFileWriter") == 1 && result == nil ==> fw.writer == callres("NewFileWriter", 1).0 && ncalls("Close") == 0
+//@   ensures [C10,C12] ncalls("NewFileWriter") == 1 && result != nil ==> fw.writer == old(fw.writer) && (ncalls("WriteHeader") == 1 ==> ncalls("Close") == 1)
+//@   ensures [C11] ncalls("WriteHeader") == 1 ==> ncalls("Sprintf") == 1 && callarg("Sprintf", 1, 0) == "%striggeredthresh: %d\n" && len(callarg("Sprintf", 1, 1)) == 2
+//@   ensures [C11] ncalls("WriteHeader") == 1 && ncalls("Sprintf") == 1 ==> unboxstr(callarg("Sprintf", 1, 1)[0]) == old(fw.motionYAML)
+//@   ensures [C11] ncalls("WriteHeader") == 1 && ncalls("Sprintf") == 1 ==> dyntype(callarg("Sprintf", 1, 1)[1]) == typecode("uint16") && unboxint(callarg("Sprintf", 1, 1)[1]) == tempThreshold
+//@   ensures [C11] ncalls("WriteHeader") == 1 ==> callarg("WriteHeader", 1, 1).MotionConfig == callres("Sprintf", 1) && callarg("WriteHeader", 1, 1).BackgroundFrame == background && callarg("WriteHeader", 1, 1).DeviceName == old(fw.header.DeviceName) && callarg("WriteHeader", 1, 1).FPS == old(fw.header.FPS) && callarg("WriteHeader", 1, 1).PreviewSecs == old(fw.header.PreviewSecs)
+//@   ensures [C11] result == nil ==> fw.header.BackgroundFrame == nil
+//@   ensures [C17] !old(fw.constantRecorder) ==> ncalls("deleteExcessRecordings") == 0
+
+//@ func NewCPTVFileRecorder
+//@   mode permissive
+//@   allocates
+//@   requires config != nil && !isnil(camera)
+//@   ensures [C11] fresh(result) && result.writer == nil && !result.constantRecorder
+//@   ensures [C11] result.outputDir == config.OutputDir && result.minDiskSpace == config.MinDiskSpace && result.camera == camera
+//@   ensures [C11] result.header.DeviceName == config.DeviceName && result.header.PreviewSecs == config.Recorder.PreviewSecs && result.header.MotionConfig == result.motionYAML
+//@   ensures [C11] result.header.Latitude == config.Location.Latitude && result.header.Longitude == config.Location.Longitude && result.header.LocTimestamp == config.Location.Timestamp && result.header.Altitude == config.Location.Altitude && result.header.Accuracy == config.Location.Accuracy
+//@   ensures [C11] ncalls("FPS") == 1 && result.header.FPS == callres("FPS", 1) && result.header.Brand == brand && result.header.Model == model && result.header.CameraSerial == serial && result.header.Firmware == firmware
+//@   ensures [C11] result.header.DeviceID == (config.DeviceID > 0 ? config.DeviceID : 0)
+//@   ensures [C11] ncalls("Marshal") == 1
+
+//@ func (cfr *CPTVFileRecorder) SetAsConstantRecorder
+//@   mode permissive
+//@   requires cfr != nil
+//@   ensures [C17] cfr.constantRecorder && ncalls("Join") == 1 && len(callarg("Join", 1, 0)) == 2 && callarg("Join", 1, 0)[0] == old(cfr.outputDir) && callarg("Join", 1, 0)[1] == "/constant-recordings" && cfr.outputDir == callres("Join", 1)
+//@   ensures [C17] ncalls("Mkdir") == 1 && callarg("Mkdir", 1, 0) == cfr.outputDir && result == callres("Mkdir", 1)
+
+// Start-up clean-up: one glob for everything a killed recording can leave behind
+// (<ts>.cptv.temp and the CPTV writer's scratch file <ts>.cptv.temp.tmp), every
+// match removed. That "*.cptv.temp*" covers both names is the string lemma
+// /verif/contracts/lemmas/temp_glob.smt2.
+//@ func deleteTempFiles
+//@   mode permissive
+//@   loop 1 invariant [C10] ncalls("Remove") == rangeindex + 1 && ncalls("Glob") == 1 && ncalls("Join") == 1
+//@   call Remove#1 assert [C10] $0 == matches[rangeindex]
+//@   ensures [C10] ncalls("Glob") == 1 && ncalls("Join") == 1 && len(callarg("Join", 1, 0)) == 2 && callarg("Join", 1, 0)[0] == directory && callarg("Join", 1, 0)[1] == "*.cptv.temp*" && callarg("Glob", 1, 0) == callres("Join", 1)
+//@   ensures [C10] result == nil ==> ncalls("Remove") == len(callres("Glob", 1).0)
